@@ -70,7 +70,8 @@ def check(run: Run) -> None:
     for i, (clause, kk) in sorted(verdicts.items()):
         if clause != "ok":
             k = keys[i]
-            run.violation({"family": list(k), "smallest": fam[k][sorted(fam[k])[0]], "outcomes": traces[i]["outcomes"]}, clause,
+            run.violation({"family": list(k), "smallest": fam[k][sorted(fam[k])[0]], "outcomes": traces[i]["outcomes"],
+                           "sizes": sorted(fam[k]), "srcs": cases[i]["srcs"], "reclimit": cases[i]["reclimit"], "verbose": cases[i]["verbose"]}, clause,
                           {"series": traces[i]["pts"], "step": kk}, key="fam:" + "/".join(k))
     run.extra["families"] = len(keys)
     run.extra["law"] = LAW
@@ -81,5 +82,18 @@ def check(run: Run) -> None:
 
 
 def replay(rec: dict) -> int:
-    print("re-run: bin/check C18 quick   (family:", rec["case"]["family"], "series:", rec["detail"]["series"], ")")
-    return 1
+    c = rec["case"]
+    if "srcs" not in c:
+        print("old record without the programs; re-run: bin/check C18 quick   (family:", c["family"], ")")
+        return 1
+    r = run_ops("c18", [{"srcs": c["srcs"], "reclimit": c.get("reclimit"), "verbose": c.get("verbose", False)}], limit=25.0)[0]
+    ns = c["sizes"]
+    pts = [[n, max(1, p["tokens"]), min(p["work"], 500_000_000)] for n, p in zip(ns, r["series"])]
+    if len(r["series"]) < len(ns) or any(p["outcome"] == "timeout" for p in r["series"]):
+        pts.append([ns[len(pts)] if len(pts) < len(ns) else ns[-1] * 2, 1, 2_000_000_000])
+    print("family:", c["family"], "\nseries (size, tokens, work):", pts, "\noutcomes:", [p["outcome"] for p in r["series"]])
+    run = Run("C18", "quick")
+    cfg = "CONSTANTS\n EpsPct = %d\n C = %d\n K = %d\n" % (LAW["EpsPct"], LAW["C"], LAW["K"])
+    v = validate_traces(run, "WorkLaw", [{"id": 0, "pts": pts}], cfg_extra=cfg, name="worklaw-replay")
+    print("verdict:", v[0])
+    return 0 if v[0][0] == "ok" else 1
